@@ -91,6 +91,15 @@ template <class B> struct world {
             auto & lay = layout_of_data(const_cast<typename B::owning_data_t &>(at(i).backend()));
             using LB = typename std::decay_t<decltype(lay)>::parent_t;
             vf_assert(lay.get_configuration()[0] == ex[i][0] && lay.get_configuration()[1] == ex[i][1], base + 1);
+            {
+                // the storage records as many cells as the layout needs (row-major: the product; curves: enclosing square)
+                size_t need = ex[i][0] * ex[i][1];
+                if constexpr (vf::kind_of<LB>::value != vf::K_STRIDED) {
+                    size_t mx = ex[i][0] > ex[i][1] ? ex[i][0] : ex[i][1];
+                    need = utility::ipow(utility::round_pow2(mx), size_t(2));
+                }
+                vf_assert(lay.get_backend().get_configuration()[0] == need, base + 1);
+            }
             typename LB::non_owning_data_t v(lay);
             bool ok = true;
             for (size_t x = 0; x < ex[i][0]; x++)
